@@ -113,6 +113,20 @@ func vhC12(c vhC12Case, window bool) {
 		}
 		return nil
 	}
+	// has an error result for write i been written already?
+	errWritten := func(i int) bool {
+		for _, b := range w.wA.msgs[w0:] {
+			d := vhDecode(b)
+			if d.Header.CmdClassifier != nil && *d.Header.CmdClassifier == model.CmdClassifierTypeResult && d.Header.MsgCounterReference != nil &&
+				verifrt.Concrete(uint64(*d.Header.MsgCounterReference) == ctr[i]) {
+				if c := d.Payload.Cmd; len(c) > 0 && c[0].ResultData != nil && c[0].ResultData.ErrorNumber != nil && *c[0].ResultData.ErrorNumber != 0 {
+					return true
+				}
+			}
+		}
+		return false
+	}
+	late := make([]bool, n) // some verdict for write i was handed in after the rejection had gone out
 	// verdicts: 0 approve, 1 deny, 2 silent
 	verdict := make([][]int, k)
 	for j := 0; j < k; j++ {
@@ -131,7 +145,13 @@ func vhC12(c vhC12Case, window bool) {
 			if verdict[j][i] == 1 {
 				e = model.ErrorType{ErrorNumber: 7}
 			}
-			verifrt.Go(func() { w.F1.ApproveOrDenyWrite(m, e) })
+			wi := i
+			verifrt.Go(func() {
+				if errWritten(wi) {
+					late[wi] = true
+				}
+				w.F1.ApproveOrDenyWrite(m, e)
+			})
 		}
 	}
 	if window {
@@ -182,6 +202,11 @@ func vhC12(c vhC12Case, window bool) {
 		verifrt.Assert("applied-only-if-every-callback-approved", !visible || allApprove)
 		verifrt.Assert("a-denial-rejects-the-write", !anyDeny || rejected)
 		verifrt.Assert("no-unanimous-approval-ends-in-rejection", allApprove || rejected)
+		if late[i] {
+			// the peer has been told already that the write was rejected: a verdict handed in afterwards changes nothing
+			// (a second error result caused by a verdict that was already in flight is the exactly-one-outcome clause)
+			verifrt.Assert("a-verdict-after-the-rejection-went-out-is-not-applied", !visible && okN == 0)
+		}
 		if mode == 0 {
 			// no timeout could fire before the verdicts were in
 			verifrt.Assert("unanimous-timely-approval-is-applied", !allApprove || applied)
